@@ -204,14 +204,6 @@ def c08_event_blackboard(ctx):
     trace, summ = bp.execute(ctx, jobs, "c08eb")
     ctx.evaluations += summ["jobs"]
     ctx.distinct += len({json.dumps([j["cfg"], j["program"]]) for j in jobs})
-    bp.require_events(summ, [
-        "cn:ok", "cn:ExceedsMaxSupportedNotifiers", "cl:ok", "cl:ExceedsMaxSupportedListeners", "nt:ok",
-        "nt:EventIdOutOfBounds", "wt:ok", "open:ok", "open:ExceedsMaxNumberOfNodes",
-        "open:DoesNotSupportRequestedAmountOfNotifiers", "open:DoesNotSupportRequestedAmountOfListeners",
-        "open:DoesNotSupportRequestedAmountOfNodes", "open:DoesNotSupportRequestedMaxEventId",
-        "open:DoesNotSupportRequestedAmountOfReaders", "cr:ok", "cr:ExceedsMaxSupportedReaders", "cw:ok",
-        "cw:ExceedsMaxSupportedWriters", "we:ok", "we:HandleAlreadyExists", "we:EntryDoesNotExist",
-        "re:EntryDoesNotExist", "get:ok"], "event / blackboard limits")
     evt, bbt = ctx.path("traces", "c08-ev.ndjson"), ctx.path("traces", "c08-bb.ndjson")
     evr = bp.split_pattern(trace, "ev", evt)
     bbr = bp.split_pattern(trace, "bb", bbt)
@@ -222,23 +214,33 @@ def c08_event_blackboard(ctx):
            "writers": triples(bbr, "cw", "dw", "ExceedsMaxSupportedWriters") + triples(bbr, "cw", "wd", "ExceedsMaxSupportedWriters"),
            "write handles": triples(bbr, "we", "wd", "HandleAlreadyExists"),
            "blackboard nodes": triples(bbr, "open", "close", "ExceedsMaxNumberOfNodes")}
-    missing = [k for k, n in tri.items() if n == 0]
-    if missing:
-        raise vp.ToolError(f"vacuous run: no *limit -> one more -> free one -> retry* triple recorded for {missing}")
     limits_seen = {"ev": sorted({(r["fq"], r["lq"], r["nq"], r["idmax"]) for r in evr if r.get("k") == "reset"}),
                    "bb": sorted({(r["nkeys"], r["rreq"], r["nreq"]) for r in bbr if r.get("k") == "reset"})}
-    for dim, name in enumerate(("max_notifiers", "max_listeners", "max_nodes", "event_id_max_value")):
-        vals = {c[dim] for c in limits_seen["ev"]}
-        if not set(range(5)) <= vals:
-            raise vp.ToolError(f"limit values 0..4 of {name} not all exercised: {sorted(vals)}")
-    for dim, name in ((1, "max_readers"), (2, "blackboard max_nodes")):
-        vals = {c[dim] for c in limits_seen["bb"]}
-        if not set(range(5)) <= vals:
-            raise vp.ToolError(f"limit values 0..4 of {name} not all exercised: {sorted(vals)}")
     ev_jobs = [j for j in jobs if j["pat"] == "ev"]
     bb_jobs = [j for j in jobs if j["pat"] == "bb"]
     ok1 = bp.validate(ctx, "ev", "EventLimitsTrace", evt, ev_jobs, "event limits")
     ok2 = bp.validate(ctx, "bb", "BlackboardTrace", bbt, bb_jobs, "blackboard limits")
+    if ok1 and ok2 and not summ.get("aborted"):     # vacuity guards of the trace direction
+        bp.check_truncation(summ, True, "event / blackboard limits")
+        bp.require_events(summ, [
+            "cn:ok", "cn:ExceedsMaxSupportedNotifiers", "cl:ok", "cl:ExceedsMaxSupportedListeners", "nt:ok",
+            "nt:EventIdOutOfBounds", "wt:ok", "open:ok", "open:ExceedsMaxNumberOfNodes",
+            "open:DoesNotSupportRequestedAmountOfNotifiers", "open:DoesNotSupportRequestedAmountOfListeners",
+            "open:DoesNotSupportRequestedAmountOfNodes", "open:DoesNotSupportRequestedMaxEventId",
+            "open:DoesNotSupportRequestedAmountOfReaders", "cr:ok", "cr:ExceedsMaxSupportedReaders", "cw:ok",
+            "cw:ExceedsMaxSupportedWriters", "we:ok", "we:HandleAlreadyExists", "we:EntryDoesNotExist",
+            "re:EntryDoesNotExist", "get:ok"], "event / blackboard limits")
+        missing = [k for k, n in tri.items() if n == 0]
+        if missing:
+            raise vp.ToolError(f"vacuous run: no *limit -> one more -> free one -> retry* triple recorded for {missing}")
+        for dim, name in enumerate(("max_notifiers", "max_listeners", "max_nodes", "event_id_max_value")):
+            vals = {c[dim] for c in limits_seen["ev"]}
+            if not set(range(5)) <= vals:
+                raise vp.ToolError(f"limit values 0..4 of {name} not all exercised: {sorted(vals)}")
+        for dim, name in ((1, "max_readers"), (2, "blackboard max_nodes")):
+            vals = {c[dim] for c in limits_seen["bb"]}
+            if not set(range(5)) <= vals:
+                raise vp.ToolError(f"limit values 0..4 of {name} not all exercised: {sorted(vals)}")
     ctx.coverage["event_blackboard_limits"] = {"programs": len(jobs), "calls": summ["ops"], "events": summ["events"],
                                                "triples_refused_freed_retried": tri,
                                                "configurations": {k: len(v) for k, v in limits_seen.items()}}
